@@ -253,11 +253,41 @@ CHECKS["C09"] = dict(
     note="trusted: the evaluator of sa/; not decided: longer values, start > end, negative positions",
     design="DESIGN.md section 3 C09", bounded=True)
 
-NOT_APPLICABLE = [
-    ("C10", "column arithmetic over character widths that come from cwcwidth, a compiled extension outside the analysed source"),
-    ("C11", "hand-written width state machine whose fence-posts are integer relations over external widths"),
-    ("C16", "first-fit packing and word/gap pairing are index arithmetic; nothing structural is necessary and robust"),
-]
+CHECKS["C10"] = dict(
+    technique="abstract interpretation of FmtStr.width / width_at_offset / width_aware_slice on a catalogue of narrow, double-width and combining characters, compared with a column picture written from the statement; the compiled width functions are replaced by the pure-Python wcwidth package (stated assumption)",
+    text="For every text of up to 4 characters (thorough 5) over {a, b, U+FF25 (double width), U+0301 (combining)} as one run and cut "
+         "into two runs at every position: f.width is the number of columns the characters occupy, width_at_offset(n) the number the "
+         "first n occupy for every n, and for every column range 0 <= a <= b <= width+2 width_aware_slice(a:b) has the width of the "
+         "requested columns that exist, holds every character lying wholly inside with its formatting and a space with the "
+         "character's formatting for a double-width character cut by either edge.",
+    note="ASSUMPTION: cwcwidth (a compiled extension outside the analysed source) agrees with the wcwidth package on this alphabet; "
+         "trusted: the evaluator of sa/; not decided: longer texts, the position of a combining character whose base is cut",
+    design="DESIGN.md section 3 C10", bounded=True)
+CHECKS["C11"] = dict(
+    technique="abstract interpretation of FmtStr.width_aware_splitlines (generator and ChunkSplitter) on a catalogue, the clauses of the statement checked on the output lines; width functions replaced by the wcwidth package (stated assumption)",
+    text="For every text of up to 5 characters (thorough 6) over {a, b, U+FF25, U+0301} as one run, two runs cut at every position and "
+         "with empty runs inserted, and columns 2..5: every line is a FmtStr, none wider than the limit, every line but the last "
+         "exactly as wide, none empty; with padding removed the lines concatenated are the value's characters in order with "
+         "their formatting; the only additions are single spaces ending a line that is one column short where the next character "
+         "is double-width, formatted like that character; columns < 2 raises ValueError. Clauses are checked on the output, the "
+         "wrapping is not re-implemented.",
+    note="ASSUMPTION: cwcwidth agrees with the wcwidth package on this alphabet; trusted: the evaluator of sa/ (generators included); "
+         "not decided: longer texts and larger limits",
+    design="DESIGN.md section 3 C11", bounded=True)
+CHECKS["C16"] = dict(
+    technique="abstract interpretation of linesplit on a small-scope catalogue of texts and run layouts, the clauses of the statement checked on the output lines",
+    text="For every text of up to 5 symbols (thorough 7) over {a, b, space, tab} (thorough plus newline; longer ones thinned "
+         "deterministically), as a str and as two FmtStr layouts whose formatting changes inside words and inside whitespace, some "
+         "longer hand-written texts, and columns 1, 2, 3, 5, 9 (thorough 1..6, 9): no line longer than the limit, empty or "
+         "starting / ending with whitespace; the non-blank characters of all lines in order are those of the text with their "
+         "formatting; words on a line are separated by exactly one space whose formatting is that of the whitespace it replaces "
+         "when that is uniform and never an attribute none of it had; a break falls between two words only when the next did not "
+         "fit; a longer word is cut into full-length pieces; a text without words gives no lines. Clauses are checked on the "
+         "output, the wrapping is not re-implemented.",
+    note="trusted: the evaluator of sa/, str.split's notion of a word; not decided: longer texts, other whitespace kinds",
+    design="DESIGN.md section 3 C16", bounded=True)
+
+NOT_APPLICABLE = []
 
 ALL = ["C%02d" % i for i in range(1, 21)]
 
